@@ -160,17 +160,17 @@ Qed.
 Theorem toy_G1 : forall s, split_host_port s <> None -> toy_parse_ip s = None.
 Proof. intros s H. unfold toy_parse_ip. destruct (split_host_port s); congruence. Qed.
 
-Theorem toy_G2 : forall a, valid_ip a = true -> no_brackets (toy_str a) = true.
+Theorem toy_G2 : forall a, valid_ip a = true -> wf_bytes a = true -> no_brackets (toy_str a) = true.
 Proof.
-  intros a _. apply no_brackets_iff. unfold toy_str. split; apply enc_no; unfold c_lbr, c_rbr; lia.
+  intros a _ _. apply no_brackets_iff. unfold toy_str. split; apply enc_no; unfold c_lbr, c_rbr; lia.
 Qed.
 
-Theorem toy_G5 : forall a a', norm a = norm a' -> toy_str a = toy_str a'.
-Proof. intros a a' H. unfold toy_str. now rewrite H. Qed.
+Theorem toy_G5 : forall a a', valid_ip a = true -> valid_ip a' = true -> norm a = norm a' -> toy_str a = toy_str a'.
+Proof. intros a a' _ _ H. unfold toy_str. now rewrite H. Qed.
 
 Theorem toy_literal_law : literal_law toy_str toy_resolve.
 Proof.
-  intros a z Ha _. exists (norm a). destruct (norm_idem a Ha) as [Hn Hv]. repeat split; auto.
+  intros a z Ha _ _ _. exists (norm a). destruct (norm_idem a Ha) as [Hn Hv]. repeat split; auto.
   unfold toy_resolve, ip_text, with_zone, toy_str.
   assert (Hp : has_byte c_pct (flat_map enc_byte (norm a)) = false) by (apply enc_no; unfold c_pct; lia).
   destruct z as [|c z].
@@ -186,5 +186,5 @@ Example toy_permitted_unchanged :
 Proof.
   intros a s. unfold s.
   apply (permitted_literal_unchanged toy_parse_ip toy_str ex_re toy_G1 toy_G2 toy_G5 toy_resolve pol_block a [] (s_ "443") toy_literal_law);
-    vm_compute; reflexivity.
+    try (vm_compute; reflexivity); intros _; reflexivity.
 Qed.
